@@ -649,6 +649,12 @@ class DocumentMapper:
                 if s.start < index:
                     continue
                 if s.run is not None:
+                    offset = self._offset_in_run(s)
+                    if offset > 0:
+                        # The offset lies between two lines of one formatted run (only a
+                        # virtual marker in between): split the run there.
+                        left, _ = self._split_run_at_index(s.run, offset)
+                        return left, False
                     return s.run, True
                 if s.text in ("\n\n", "\n", " | "):
                     break  # left the paragraph without meeting a real run
